@@ -1091,6 +1091,104 @@ func runC11Pipes(res *Result, r *Rng) {
 			return
 		}
 	}
+	runC11Preloaded(res, exe, r)
+}
+
+// runC11Preloaded: one delivery of exactly N bytes of complete lines is waiting in the pipe when pp
+// starts reading (N around the size of the scanner's buffer, so that a single read can fill all the
+// room it has); the producer then pauses with the pipe open.  Every line of the block must come out.
+func runC11Preloaded(res *Result, exe string, r *Rng) {
+	sizes := []int{16384, 32768, 16384 + 64, 4096, 65536 - 4096}
+	if res.Tier != "quick" {
+		sizes = append(sizes, 16383, 16385, 8192, 49152, 1024, 16384*3+17)
+	}
+	for k, size := range sizes {
+		var sb strings.Builder
+		last := ""
+		for i := 0; sb.Len() < size; i++ {
+			l := fmt.Sprintf("preloaded line %d of block %d ", i, k)
+			room := size - sb.Len()
+			if room < len(l)+1+20 {
+				// the last line takes exactly what is left
+				if room < 2 {
+					l = ""
+				} else {
+					l = (l + strings.Repeat("x", room))[:room-1]
+				}
+				sb.WriteString(l + "\n")
+				last = l
+				break
+			}
+			sb.WriteString(l + "\n")
+			last = l
+		}
+		block := sb.String()
+		if len(block) != size {
+			continue
+		}
+		pr, pw, err := os.Pipe()
+		if err != nil {
+			return
+		}
+		if _, err := pw.Write([]byte(block)); err != nil {
+			pr.Close()
+			pw.Close()
+			return
+		}
+		cmd := exec.Command(exe, "-no-color", "-rebase=false", "-parse=false")
+		cmd.Stdin = pr
+		stdout, _ := cmd.StdoutPipe()
+		cmd.Stderr = io.Discard
+		if err := cmd.Start(); err != nil {
+			pr.Close()
+			pw.Close()
+			return
+		}
+		pr.Close()
+		var mu sync.Mutex
+		var got bytes.Buffer
+		done := make(chan struct{})
+		go func() {
+			buf := make([]byte, 65536)
+			for {
+				n, err := stdout.Read(buf)
+				mu.Lock()
+				got.Write(buf[:n])
+				mu.Unlock()
+				if err != nil {
+					close(done)
+					return
+				}
+			}
+		}()
+		ok := false
+		deadline := time.Now().Add(10 * time.Second)
+		for time.Now().Before(deadline) {
+			mu.Lock()
+			ok = last == "" || strings.Contains(got.String(), last+"\n")
+			mu.Unlock()
+			if ok {
+				break
+			}
+			time.Sleep(2 * time.Millisecond)
+		}
+		mu.Lock()
+		have := got.Len()
+		mu.Unlock()
+		pw.Close()
+		select {
+		case <-done:
+		case <-time.After(10 * time.Second):
+		}
+		cmd.Process.Kill()
+		cmd.Wait()
+		res.Count("pp-pipe-preloaded")
+		res.Eval(fmt.Sprintf("pp-preloaded|%d", size), true)
+		if !ok {
+			res.Violation(Finding{Stream: "pp on pipes", What: fmt.Sprintf("one delivery of %d bytes of complete lines was waiting on pp's stdin, the producer then paused with the pipe open, and after 10 s only %d of the %d bytes had appeared on pp's stdout (the last line %q had not)", size, have, size, clip(last)), Op: map[string]interface{}{"command": "pp -no-color -rebase=false -parse=false", "block_bytes": size, "input": "stdin pipe, written before the command starts"}})
+			return
+		}
+	}
 }
 
 func runC11Process(res *Result, r *Rng) {
